@@ -7,8 +7,10 @@
 // model of the pipelines and the Coq spec are evaluated on the same data.
 //
 // Case kinds (field kind):
-//   compile  one data file under one codec configuration (v1 | v2 | cdb) and a list of settings
-//   buckets  the builder's own sort + createBuckets on a key array (hook rdb.BucketsForVerif)
+//
+//	compile  one data file under one codec configuration (v1 | v2 | cdb) and a list of settings
+//	buckets  the builder's own sort + createBuckets on a key array (hook rdb.BucketsForVerif)
+//
 // Batch runs with BatchNumParallel <= 0 are made in a child process under a timeout
 // (that setting once blocked for ever).
 package main
@@ -22,6 +24,7 @@ import (
 	"os"
 	"os/exec"
 	"path/filepath"
+	"runtime/debug"
 	"strings"
 	"sync"
 	"sync/atomic"
@@ -49,30 +52,30 @@ type runJ struct {
 	Par     int              `json:"par"`
 	Ok      bool             `json:"ok"` // the compiler returned a nil error
 	Err     string           `json:"err,omitempty"`
-	Ms      int              `json:"ms"`                // wall time of compile + read back
-	NRec    int              `json:"nrec"`              // values read back
-	GoSame  bool             `json:"go_same"`           // dump = reference as key -> multiset (only when ok)
+	Ms      int              `json:"ms"`                 // wall time of compile + read back
+	NRec    int              `json:"nrec"`               // values read back
+	GoSame  bool             `json:"go_same"`            // dump = reference as key -> multiset (only when ok)
 	DiffKey []int            `json:"diff_key,omitempty"` // first differing key
-	Dump    []complib.JEntry `json:"dump,omitempty"`    // small cases only
+	Dump    []complib.JEntry `json:"dump,omitempty"`     // small cases only
 }
 
 type compileCase struct {
-	Kind    string        `json:"kind"`
-	Class   string        `json:"class"`
-	Cfg     string        `json:"cfg"`
-	File    []int         `json:"file"` // input: the data file
-	Small   bool          `json:"small"`
-	NLines  int           `json:"nlines"`
-	NRec    int           `json:"nrec"`
-	AllOk   bool          `json:"all_ok"` // reference codec accepted every line
-	BadLine int           `json:"bad_line"`
-	Lines   []lineJ       `json:"lines,omitempty"`
-	Acc     []complib.JKV `json:"acc,omitempty"`
-	Feat    []complib.JKV `json:"feat,omitempty"`
-	NCPU    int           `json:"ncpu"` // runtime.NumCPU() = maxBucketNum of the builder
-	Buckets [][2]int      `json:"buckets,omitempty"`
-	Straddle bool         `json:"straddle,omitempty"` // a bucket end was moved because equal keys met at the nominal boundary
-	Runs    []runJ        `json:"runs"`
+	Kind     string        `json:"kind"`
+	Class    string        `json:"class"`
+	Cfg      string        `json:"cfg"`
+	File     []int         `json:"file"` // input: the data file
+	Small    bool          `json:"small"`
+	NLines   int           `json:"nlines"`
+	NRec     int           `json:"nrec"`
+	AllOk    bool          `json:"all_ok"` // reference codec accepted every line
+	BadLine  int           `json:"bad_line"`
+	Lines    []lineJ       `json:"lines,omitempty"`
+	Acc      []complib.JKV `json:"acc,omitempty"`
+	Feat     []complib.JKV `json:"feat,omitempty"`
+	NCPU     int           `json:"ncpu"` // runtime.NumCPU() = maxBucketNum of the builder
+	Buckets  [][2]int      `json:"buckets,omitempty"`
+	Straddle bool          `json:"straddle,omitempty"` // a bucket end was moved because equal keys met at the nominal boundary
+	Runs     []runJ        `json:"runs"`
 }
 
 type bucketCase struct {
@@ -245,7 +248,7 @@ func runCompileCase(scratch string, class, cfgName string, file []byte, sets []s
 	}
 	c.Runs = make([]runJ, len(sets))
 	var wg sync.WaitGroup
-	sem := make(chan struct{}, 6)
+	sem := make(chan struct{}, 4)
 	var firstErr error
 	var mu sync.Mutex
 	for i, s := range sets {
@@ -536,7 +539,14 @@ func run(a *hlib.Args, e *hlib.Emitter) error {
 
 	// bucket arithmetic
 	rb := hlib.NewRng(a.Seed, 2)
-	for i := 0; i < 25*a.N; i++ {
+	nb := 250
+	if thorough {
+		nb = 5000
+	}
+	if a.N == 0 {
+		nb = 0
+	}
+	for i := 0; i < nb; i++ {
 		c := genBuckets(rb)
 		runBuckets(c)
 		e.Emit(c)
@@ -544,7 +554,7 @@ func run(a *hlib.Args, e *hlib.Emitter) error {
 
 	// small files, evaluated by the Coq model as well
 	r := hlib.NewRng(a.Seed, 1)
-	perCase := 5
+	perCase := 6
 	if thorough {
 		perCase = 100
 	}
@@ -561,7 +571,7 @@ func run(a *hlib.Args, e *hlib.Emitter) error {
 		file := genSmallFile(r, class)
 		cfgName := []string{"v1", "v2"}[i%2]
 		// a Builder costs about 1 GB of zeroed memory and a child process a second: few of them in the quick tier
-		sets := pickSettings(r, cfgOf(cfgName), perCase, thorough || i%3 == 0, thorough || i%3 == 1)
+		sets := pickSettings(r, cfgOf(cfgName), perCase, thorough || i%2 == 0, thorough || i%3 == 1)
 		c, err := runCompileCase(a.Scratch, class, cfgName, file, sets, true, ncpu)
 		if err != nil {
 			return err
@@ -635,4 +645,11 @@ func run(a *hlib.Args, e *hlib.Emitter) error {
 	return nil
 }
 
-func main() { hlib.Main(run) }
+// Every rdb.CreateBatch allocates about 10 MB and every Builder about 1 GB, almost all of it never
+// touched.  With the proportional collector each of them starts a collection and the freed spans
+// are zeroed again on reuse; the collector is therefore driven by a memory limit alone.
+func main() {
+	debug.SetGCPercent(-1)
+	debug.SetMemoryLimit(4 << 30)
+	hlib.Main(run)
+}
